@@ -244,6 +244,19 @@ func (s *c26Spec) pending() []uint64 {
 	return ks
 }
 
+// stranded returns the stored items that were not emitted in this open although the consumer
+// drained the queue, and that lie at or below a delete bound of this open.
+func (s *c26Spec) stranded() []uint64 {
+	var ks []uint64
+	for k := range s.stored {
+		if !s.emittedOpen[k] && s.anyDelOpen && k <= s.maxDelOpen {
+			ks = append(ks, k)
+		}
+	}
+	sort.Slice(ks, func(i, j int) bool { return ks[i] < ks[j] })
+	return ks
+}
+
 // ---- generator -------------------------------------------------------------------
 
 type c26Gen struct {
@@ -429,6 +442,12 @@ func c26Child() {
 var c26OpNanos int64 = 300000 // measured cost of one accepted enqueue (set by the test)
 
 func c26KillRound(r *vfRng, dir, path string, ops []string) (acked []string, opened bool, err error) {
+	return c26KillRoundAt(r, dir, path, ops, -1)
+}
+
+// c26KillRoundAt: target = number of ops after which the child is gated and killed
+// (-1: random; len(ops): after every op has been acknowledged).
+func c26KillRoundAt(r *vfRng, dir, path string, ops []string, fixedTarget int) (acked []string, opened bool, err error) {
 	script := filepath.Join(dir, "script.txt")
 	if err := os.WriteFile(script, []byte(strings.Join(ops, "\n")+"\n"), 0o644); err != nil {
 		return nil, false, err
@@ -438,6 +457,9 @@ func c26KillRound(r *vfRng, dir, path string, ops []string) (acked []string, ope
 	// kills it after a random delay of 0..3 enqueue-times, so the kill lands before, inside
 	// or shortly after that op (often inside a Bolt Update).
 	target := r.Intn(len(ops) + 1)
+	if fixedTarget >= 0 {
+		target = fixedTarget
+	}
 	cmd.Env = append(os.Environ(), "VERIF_C26_CHILD="+script, "VERIF_C26_DB="+path, fmt.Sprintf("VERIF_C26_GATE=%d", target))
 	stdout, err := cmd.StdoutPipe()
 	if err != nil {
@@ -533,6 +555,12 @@ loop:
 // file is reopened in-process, queried, and closed again. Returns the trace as seen by an
 // observer (acknowledged ops, plus the in-flight op when its effect is visible).
 func c26KillSequence(t *testing.T, rep *vfReport, r *vfRng, dir string, rounds int) (c26Result, bool) {
+	return c26KillSequenceScripted(t, rep, r, dir, rounds, nil, "kill:")
+}
+
+// c26KillSequenceScripted: when script != nil its rounds are run instead of generated ones and
+// the child is killed only after it has acknowledged every op of the round.
+func c26KillSequenceScripted(t *testing.T, rep *vfReport, r *vfRng, dir string, rounds int, script [][]string, mode string) (c26Result, bool) {
 	path := filepath.Join(dir, "kill.db")
 	os.Remove(path)
 	var res c26Result
@@ -546,17 +574,26 @@ func c26KillSequence(t *testing.T, rep *vfReport, r *vfRng, dir string, rounds i
 		t.Fatalf("open: %v", err)
 	}
 	q0.close()
+	if script != nil {
+		rounds = len(script)
+	}
 	for round := 0; round < rounds; round++ {
 		n := 3 + r.Intn(12)
 		var ops []string
-		for i := 0; i < n; i++ {
-			ops = append(ops, g.op(false))
+		fixed := -1
+		if script != nil {
+			ops = script[round]
+			fixed = len(ops)
+		} else {
+			for i := 0; i < n; i++ {
+				ops = append(ops, g.op(false))
+			}
 		}
 		// the child's open is a reopen of the file
 		res.ops = append(res.ops, "reopen")
 		res.out = append(res.out, "ok")
 		spec.apply("reopen", "ok")
-		acked, _, err := c26KillRound(r, dir, path, ops)
+		acked, _, err := c26KillRoundAt(r, dir, path, ops, fixed)
 		if err != nil {
 			t.Fatalf("kill round: %v", err)
 		}
@@ -564,7 +601,7 @@ func c26KillSequence(t *testing.T, rep *vfReport, r *vfRng, dir string, rounds i
 			res.ops = append(res.ops, ops[i])
 			res.out = append(res.out, o)
 			if sig, detail := spec.apply(ops[i], o); sig != "" {
-				rep.Fail("kill:"+sig, fmt.Sprintf("child op %q -> %q: %s", ops[i], o, detail),
+				rep.Fail(mode+sig, fmt.Sprintf("child op %q -> %q: %s", ops[i], o, detail),
 					map[string]interface{}{"ops": vfTrunc(res.ops), "impl": vfTrunc(res.out)})
 				return res, false
 			}
@@ -573,7 +610,7 @@ func c26KillSequence(t *testing.T, rep *vfReport, r *vfRng, dir string, rounds i
 		// reopen in-process and look
 		rr, err := c26Open(path)
 		if err != nil {
-			rep.Fail("kill:reopen-failed", err.Error(), map[string]interface{}{"ops": vfTrunc(res.ops)})
+			rep.Fail(mode+"reopen-failed", err.Error(), map[string]interface{}{"ops": vfTrunc(res.ops)})
 			return res, false
 		}
 		obs := rr.exec("query")
@@ -603,7 +640,7 @@ func c26KillSequence(t *testing.T, rep *vfReport, r *vfRng, dir string, rounds i
 		}
 		if !matched {
 			l, first, hi := spec.queryLine()
-			rep.Fail("kill:state-after-kill-is-neither-before-nor-after-the-inflight-op",
+			rep.Fail(mode+"state-after-kill-is-neither-before-nor-after-the-inflight-op",
 				fmt.Sprintf("after kill (acked %d of %d ops) the queue reports %q; acknowledged history implies len=%d first=%d highest=%d", len(acked), len(ops), obs, l, first, hi),
 				map[string]interface{}{"ops": vfTrunc(res.ops), "impl": vfTrunc(res.out), "round_ops": ops, "acked": len(acked)})
 			return res, false
@@ -623,12 +660,12 @@ func c26KillSequence(t *testing.T, rep *vfReport, r *vfRng, dir string, rounds i
 		res.ops = append(res.ops, "consume")
 		res.out = append(res.out, o)
 		if sig, detail := spec.apply("consume", o); sig != "" {
-			rep.Fail("kill:"+sig, detail, map[string]interface{}{"ops": vfTrunc(res.ops), "impl": vfTrunc(res.out)})
+			rep.Fail(mode+sig, detail, map[string]interface{}{"ops": vfTrunc(res.ops), "impl": vfTrunc(res.out)})
 			return res, false
 		}
 	}
 	if p := spec.pending(); len(p) > 0 {
-		rep.Fail("kill:progress:stored-item-never-emitted", fmt.Sprintf("after draining, stored items %v were never emitted", p),
+		rep.Fail(mode+"progress:stored-item-never-emitted", fmt.Sprintf("after draining, stored items %v were never emitted", p),
 			map[string]interface{}{"ops": vfTrunc(res.ops), "impl": vfTrunc(res.out)})
 		return res, false
 	}
@@ -757,6 +794,11 @@ func TestVerifC26(t *testing.T) {
 			rep.Fail("progress:stored-item-never-emitted", fmt.Sprintf("after draining, stored items %v (above every delete bound of this open) were never emitted", p),
 				map[string]interface{}{"ops": vfTrunc(res.ops), "impl": vfTrunc(res.out)})
 		}
+		if st := spec.stranded(); len(st) > 0 {
+			rep.Fail("progress:stored-item-at-or-below-a-delete-bound-not-emitted-until-reopen",
+				fmt.Sprintf("after draining, stored items %v (enqueued at or below a DeleteRange bound of this open) were not emitted", st),
+				map[string]interface{}{"ops": vfTrunc(res.ops), "impl": vfTrunc(res.out)})
+		}
 		rep.Count("drain-sequences")
 		rep.Case("drain:"+strings.Join(ops, ";"), spec.emit > 0)
 		segOps = append(segOps, res.ops)
@@ -765,6 +807,28 @@ func TestVerifC26(t *testing.T) {
 
 	rep.Note("phase 2 (drain sequences) took %d ms", time.Since(tPhase).Milliseconds())
 	tPhase = time.Now()
+	// 3a. DIRECTED kill -9 scenarios, every run: the child is killed (no Close) right after it
+	// has acknowledged the last op of each round; the next round replays enqueues at or below
+	// the highest index ever acknowledged, which must be ignored although the queue was emptied
+	directedKill := [][][]string{
+		// drain, delete everything, kill, replayed enqueues
+		{{"enq 1 x01", "enq 2 x02", "enq 3 x03", "consume", "consume", "consume", "del 3", "query"},
+			{"query", "enq 3 x03", "enq 2 x02", "enq 1 x01", "query", "consume", "enq 4 x04", "consume", "query"}},
+		// kill right after an acknowledged enqueue; then delete it and kill again
+		{{"enq 5 x05"}, {"query", "consume", "del 5", "query"}, {"query", "enq 5 x05", "enq 4 x", "query", "consume"}},
+		// delete beyond the highest index, kill, replay below and above
+		{{"enq 7 x07", "del 100"}, {"query", "enq 7 x07", "enq 50 x32", "query", "enq 101 x65", "consume", "consume"}},
+	}
+	for i, sc := range directedKill {
+		res, ok := c26KillSequenceScripted(t, rep, r, dir, 0, sc, "kill-directed:")
+		rep.Count("kill-directed-sequences")
+		rep.Case(fmt.Sprintf("kill-directed:%d", i), ok)
+		if ok {
+			segOps = append(segOps, res.ops)
+			segImpl = append(segImpl, res.out)
+		}
+	}
+
 	// 3. kill -9 of a child process at random points
 	kills := vfScale(6, 400)
 	for s := 0; s < kills; s++ {
